@@ -38,6 +38,7 @@ RULEDOC = {
  'SA-GATE.joliet': 'every insertion into the Joliet tree passes the Joliet name gate',
  'SA-IDENT': 'tree nodes are told apart by identity (is / id()), never by the content-based __eq__ of DirectoryRecord and friends',
  'SA-IDENT.key': 'an extent-to-inode identity map is never looked up with a sentinel key shared by a whole class of records',
+ 'SA-LEN.susp': 'the su_len byte of each fixed-shape SUSP entry equals the number of bytes its record() emits (length algebra)',
  'SA-LENBOUND': 'a length stored in a one-byte field is refused above 255 after its last increase',
  'SA-OWN.cdfp-handle': 'only the owners rebind the handle of the opened image',
  'SA-OWN.children': 'DirectoryRecord.children is mutated only by the sorted insert/remove primitives',
